@@ -2,6 +2,7 @@ package main
 
 import (
 	"fmt"
+	"net"
 	"reflect"
 	"strings"
 
@@ -17,8 +18,9 @@ import (
 type held struct {
 	f      *openflow13.MatchField
 	expect openflow13.MatchField // what this task last knows the value to be (Value/Mask compared by identity)
-	name   string
-	step   int
+	name    string
+	step    int
+	mutated bool
 }
 
 type taskCtx struct {
@@ -216,6 +218,34 @@ func (w *world) exec(c *taskCtx, op Op) string {
 			normalise(h)
 			return encodeOutcome(h)
 		})
+	case "dhcp0":
+		// DHCP constructors asked to choose the transaction id themselves (xid 0): the id is
+		// random by design, everything else must equal the sequential outcome
+		return guard(func() string {
+			r := simrt.NewRNG(op.S)
+			hw := net.HardwareAddr(r.Bytes(6))
+			var d *protocol.DHCP
+			var err error
+			switch op.A % 6 {
+			case 0:
+				d, err = protocol.NewDHCP(0, protocol.DHCPOperation(protocol.DHCP_MSG_BOOT_REQ), protocol.DHCP_HW_ETHERNET)
+			case 1:
+				d, err = protocol.NewDHCPDiscover(0, hw)
+			case 2:
+				d, err = protocol.NewDHCPOffer(0, hw)
+			case 3:
+				d, err = protocol.NewDHCPRequest(0, hw)
+			case 4:
+				d, err = protocol.NewDHCPAck(0, hw)
+			case 5:
+				d, err = protocol.NewDHCPNak(0, hw)
+			}
+			if err != nil || d == nil {
+				return "error:" + errText(err)
+			}
+			d.Xid = 7
+			return fmt.Sprintf("h=%016x len=%d", hlib.DeepHash(d), d.Len())
+		})
 	case "lib":
 		return guard(func() string {
 			m, err := hlib.LibMessage(op.N, simrt.NewRNG(op.S))
@@ -286,10 +316,48 @@ func (w *world) exec(c *taskCtx, op Op) string {
 			h.f.Mask = util.NewBuffer(r.Bytes(1 + r.Intn(16)))
 		}
 		h.expect = *h.f
+		h.mutated = true
 		if w.concurrent {
 			w.faults.Add("result_mutated", 1)
 		}
 		return "m"
+	case "use":
+		// hand a lookup result to the library functions that take a field header, the way
+		// flow-programming code does, and keep holding it: it stays the caller's value
+		var cand []*held
+		for _, h := range c.held {
+			if !h.mutated {
+				cand = append(cand, h)
+			}
+		}
+		if len(cand) == 0 {
+			return "-"
+		}
+		r := simrt.NewRNG(op.S)
+		h := cand[r.Intn(len(cand))]
+		h2 := cand[r.Intn(len(cand))]
+		w.checkHeld(c, h)
+		out := guard(func() string {
+			var a util.Message
+			switch op.A % 6 {
+			case 0:
+				a = openflow13.NewNXActionConnTrack().ZoneRange(h.f, openflow13.NewNXRange(0, 15))
+			case 1:
+				a = openflow13.NewNXActionRegLoad(openflow13.NewNXRange(0, 7).ToOfsBits(), h.f, uint64(r.Intn(200)))
+			case 2:
+				a = openflow13.NewNXActionRegMove(8, 0, 0, h.f, h2.f)
+			case 3:
+				a = openflow13.NewOutputFromField(h.f, openflow13.NewNXRange(0, 15).ToOfsBits())
+			case 4:
+				a = openflow13.NewOutputFromFieldWithMaxLen(h.f, openflow13.NewNXRange(0, 15).ToOfsBits(), uint16(r.Intn(1000)))
+			case 5:
+				a = openflow13.NewNXActionRegLoad2(h.f)
+			}
+			return encodeOutcome(a)
+		})
+		w.checkHeld(c, h)
+		w.checkHeld(c, h2)
+		return out
 	case "check":
 		for _, h := range c.held {
 			w.checkHeld(c, h)
